@@ -73,6 +73,8 @@ func runC17(p *Prog, r *Result) {
 	}
 	r.Rule("R17i", "the clause that closes a bracket expression appends nothing to it but the closing bracket: an appended member would pair with a trailing literal dash", 1)
 	checkBracketCloserAddsNothing(p, r, "R17i")
+	r.Rule("R17j", "a pattern found to have no metacharacters is used as text only with its escapes removed (the check is C18's R18d: the matchers built around Regexp compare such text with the string)", 1)
+	checkLiteralPatternsUnescaped(p, r, "R17j")
 	r.Rule("R17f", "a string tested for a variable prefix and a variable suffix has the three lengths compared: the two are matched by disjoint parts", 1)
 	checkPrefixSuffixDisjoint(p, r, "R17f")
 }
